@@ -47,13 +47,34 @@ pub async fn external_tool_format(
     };
 
     if let Some(mut stdin) = child.stdin.take() {
-        if let Err(e) = stdin.write_all(text.as_bytes()).await {
-            log::error!("Failed to write to external formatter stdin: {}", e);
-            return None;
+        // The formatting handlers call this while holding the analysis and workspace-manager
+        // read locks: a formatter that does not read its input must not block the write (and
+        // with it every writer queued on those locks) forever, so the write is bounded by the
+        // same timeout as the run itself.
+        match timeout(timeout_duration, stdin.write_all(text.as_bytes())).await {
+            Ok(Ok(())) => {}
+            Ok(Err(e)) => {
+                log::error!("Failed to write to external formatter stdin: {}", e);
+                return None;
+            }
+            Err(_) => {
+                log::error!(
+                    "External formatter did not read its input within {}ms",
+                    emmyrc_external_tool.timeout
+                );
+                return None;
+            }
         }
-        if let Err(e) = stdin.shutdown().await {
-            log::error!("Failed to close external formatter stdin: {}", e);
-            return None;
+        match timeout(timeout_duration, stdin.shutdown()).await {
+            Ok(Ok(())) => {}
+            Ok(Err(e)) => {
+                log::error!("Failed to close external formatter stdin: {}", e);
+                return None;
+            }
+            Err(_) => {
+                log::error!("External formatter stdin could not be closed in time");
+                return None;
+            }
         }
     }
 
